@@ -29,6 +29,9 @@ type MemLoc struct {
 	mu   sync.Mutex
 	// Journal of job-level writes and removes (paths only)
 	Ops []string
+	// ReadHook, if set, runs before a file is read (used to make the assembly of a
+	// savepoint artifact slow)
+	ReadHook func(path string)
 }
 
 func NewMemLoc(fs *storage.MemoryFilesystem, root string) *MemLoc {
@@ -66,6 +69,12 @@ func (m *MemLoc) Write(path string, data io.Reader) (string, error) {
 }
 
 func (m *MemLoc) Read(path string) ([]byte, error) {
+	m.mu.Lock()
+	hook := m.ReadHook
+	m.mu.Unlock()
+	if hook != nil {
+		hook(m.abs(path))
+	}
 	if !m.FS.Exists(m.abs(path)) {
 		return nil, locations.ErrNotFound
 	}
